@@ -316,6 +316,28 @@ pub fn record_topic(out: &mut Out, tier: &str, seed: u64) {
     ] {
         enumerate(pre, &SUFFIX_CHARS, suf, &mut |s| all.push(s.to_string()));
     }
+    // characters whose LOW BYTE equals one of the characters the rules mention (NUL, '#', '$', '+', '/'): a validator
+    // that truncates a char to a byte, or mixes byte and char indices, confuses them
+    const CONFUSABLE: [&str; 9] = ["Ā", "ģ", "Ĥ", "ī", "į", "/", "+", "#", "x"];
+    enumerate("", &CONFUSABLE, 4, &mut |s| all.push(s.to_string()));
+    // "$share/g/t" with each prefix character replaced by a character of the same low byte, and by its upper case
+    let pre: Vec<char> = "$share/".chars().collect();
+    for (i, c) in pre.iter().enumerate() {
+        for alt in [char::from_u32(0x100 + *c as u32).unwrap(), c.to_ascii_uppercase(), 'x'] {
+            let mut v = pre.clone();
+            v[i] = alt;
+            let p: String = v.into_iter().collect();
+            for tail in ["g/t", "g/t/u", "é/+", "g/#", "/t", "g"] {
+                all.push(format!("{p}{tail}"));
+            }
+        }
+    }
+    // characters that an escaping Display / Debug conversion would alter
+    for sp in ["'", "\"", "\\", "\t", "\n", "\u{7f}", "\u{85}", "\u{301}", "\u{200b}", "\u{feff}", "\u{1}"] {
+        for ctx in ["{}", "a{}b", "a/{}", "$share/g{}/x{}", "{}/+/#", "$SYS/{}"] {
+            all.push(ctx.replace("{}", sp));
+        }
+    }
     all.sort();
     all.dedup();
     for s in &all {
